@@ -314,6 +314,8 @@ def _to_z3(e, z3, env):
         return z3.Not(rec(e.args[0]))
     if isinstance(e, sp.Implies):
         return z3.Implies(rec(e.args[0]), rec(e.args[1]))
+    if isinstance(e, sp.Equivalent):
+        return rec(e.args[0]) == rec(e.args[1])
     if isinstance(e, sp.Piecewise):
         # last branch must be the default
         r = rec(e.args[-1][0])
